@@ -275,6 +275,17 @@ class Prog:
                 elif op == 'send':
                     run.addr.send_bundle(lat_of(a[1]), ['/c10', float(zlib.crc32(repr(last).encode()) % 4096), a[1]])
                     run.events.append(f'B:{i}:{a[1]}:{fr(clock.seconds - run.start)}')
+                elif op == 'spawn' and len(a) > 3 and run.R[a[1]] is None:
+                    # the decorator entry point: @routine.run(clock, quant) creates the routine and plays it (the
+                    # recording Routine subclass is what the decorator instantiates, nothing else is touched)
+                    orig = stm.Routine
+                    stm.Routine = run.RR
+                    try:
+                        r = stm.routine.run(run.clock(a[2]), 0)(run.make_body(a[1]))
+                    finally:
+                        stm.Routine = orig
+                    run.R[a[1]] = r
+                    run.idx[id(r)] = a[1]
                 elif op == 'spawn':
                     r = run.R[a[1]] or run.create(a[1])
                     r.play(run.clock(a[2]), 0)
